@@ -3,6 +3,7 @@
 package gtfs
 
 import (
+	"regexp"
 	"time"
 
 	vr "github.com/jamespfennell/gtfs/internal/verifrt"
@@ -10,6 +11,11 @@ import (
 )
 
 // ---- symbolic GTFS-realtime message builders (shared by the realtime harnesses)
+
+// The documented wire formats of start_time and start_date (the harness's own
+// copies: checks must not depend on unexported identifiers of the repository).
+var hStartTimeRe = regexp.MustCompile(`^([0-9]{2}):([0-9]{2}):([0-9]{2})$`)
+var hStartDateRe = regexp.MustCompile(`^([0-9]{4})([0-9]{2})([0-9]{2})$`)
 
 func hOptStr(tag string) *string {
 	s := vr.Str(tag)
@@ -98,7 +104,7 @@ func hTripDescriptor(tag string, zone *time.Location, kinds int) hDesc {
 		want.StartTime = time.Duration(secs) * time.Second
 	case 2:
 		s := vr.Str(tag + ".start_time.text")
-		vr.Assume(!startTimeRegex.MatchString(s))
+		vr.Assume(!hStartTimeRe.MatchString(s))
 		d.StartTime = &s
 	}
 	dk := vr.Int(tag+".start_date.kind", 0, kinds)
@@ -111,7 +117,7 @@ func hTripDescriptor(tag string, zone *time.Location, kinds int) hDesc {
 		want.StartDate = time.Date(y, time.Month(hDig2(s[4:6])), hDig2(s[6:8]), 0, 0, 0, 0, zone)
 	case 2:
 		s := vr.Str(tag + ".start_date.text")
-		vr.Assume(!startDateRegex.MatchString(s))
+		vr.Assume(!hStartDateRe.MatchString(s))
 		d.StartDate = &s
 	case 3: // concrete civil dates around daylight-saving transitions and date-line changes of the zones under test
 		s := vr.OneOf(tag+".start_date.special", "20240310", "20241103", "20240331", "20241027", "20111230", "20111231", "20240229")
